@@ -265,6 +265,19 @@ func init() {
 				lon += 0.01 + c.rng.Float64()*10
 				ls[j] = orb.Point{lon, -60 + c.rng.Float64()*120}
 			}
+			if i%4 == 3 {
+				// across the antimeridian, written with the vertex pair (180, y), (-180, y): two different vertices no distance
+				// apart. Longitudes run 150 .. 180, then -180 .. -150 (the order check below is made on longitudes taken
+				// modulo 360)
+				k = 4 + c.rng.Intn(3)
+				ls = make(orb.LineString, 0, k)
+				y := -50 + c.rng.Float64()*100
+				west := 150 + c.rng.Float64()*20
+				ls = append(ls, orb.Point{west, y - 5}, orb.Point{180, y}, orb.Point{-180, y})
+				for len(ls) < k {
+					ls = append(ls, orb.Point{ls[len(ls)-1][0] + 1 + c.rng.Float64()*8, y + 3 + float64(len(ls))})
+				}
+			}
 			N := 1 + c.rng.Intn(25)
 			in := newBitIntern()
 			_ = in
@@ -281,10 +294,42 @@ func init() {
 				c.emit(panicEvent("resample.Resample(geo)", site, e))
 				continue
 			}
-			// ranks of the longitudes / bit-identical endpoints
-			vals := []float64{first[0], first[1], last[0], last[1]}
+			// every point lies on a segment of the line (in lon/lat, where the interpolation happens), up to 1e-9 degrees; the
+			// jump between (180, y) and (-180, y) is no segment to lie on
+			online := 1
 			for _, p := range out {
-				vals = append(vals, p[0], p[1])
+				on := false
+				for j := 0; j+1 < len(ls); j++ {
+					a, b := ls[j], ls[j+1]
+					if math.Abs(a[0]-b[0]) > 300 {
+						continue
+					}
+					cr := (b[0]-a[0])*(p[1]-a[1]) - (b[1]-a[1])*(p[0]-a[0])
+					ln := math.Hypot(b[0]-a[0], b[1]-a[1])
+					if ln == 0 {
+						on = on || p == a
+						continue
+					}
+					t := ((p[0]-a[0])*(b[0]-a[0]) + (p[1]-a[1])*(b[1]-a[1])) / (ln * ln)
+					if math.Abs(cr)/ln < 1e-9 && t > -1e-9 && t < 1+1e-9 {
+						on = true
+					}
+				}
+				if !on {
+					online = 0
+				}
+			}
+			e["online"] = online
+			// ranks of the longitudes (modulo 360: east of the antimeridian counts on) / bit-identical endpoints
+			unwrap := func(x float64) float64 {
+				if x < 0 && ls[0][0] > 100 {
+					return x + 360
+				}
+				return x
+			}
+			vals := []float64{unwrap(first[0]), first[1], unwrap(last[0]), last[1]}
+			for _, p := range out {
+				vals = append(vals, unwrap(p[0]), p[1])
 			}
 			rk := ranks(vals)
 			e["first"], e["last"] = []int{rk[0], rk[1]}, []int{rk[2], rk[3]}
